@@ -315,7 +315,25 @@ func c16Concurrent(r *Run, cfg *Stream) {
 				m := mutList{setCell("f1", "q", now+int64(1+n+10*j)*1000, fmt.Sprintf("w%d.%d", j, n)), setCell("f2", fmt.Sprintf("w%d", j), now, fmt.Sprintf("x%d", n))}
 				evt++
 				call := evt
-				err := w.MutateRow(c16Tbl, k, m)
+				var err error
+				if doomed && (n+j)%3 == 0 {
+					// read the row, then a predicate-less CheckAndMutateRow with the same
+					// mutations in both branches. This writer is the only client of the row and a
+					// pass only removes cells: if the read shows no cell, the row has none when
+					// the request runs, so predicate_matched must be false.
+					rr := w.ReadRow(c16Tbl, k)
+					matched, e2 := w.CheckAndMutate(c16Tbl, k, nil, m, m)
+					err = e2
+					if e2 == nil && rr.Err == nil && len(rr.Rows) == 0 {
+						r.Probe("c16.cam_on_row_emptied_by_pass")
+						if matched {
+							r.Fail("cam-on-collected-row", "", "row %q had no cell when read, nobody else writes it and a pass only removes cells, yet a predicate-less CheckAndMutateRow right after reports predicate_matched=true", k)
+							return
+						}
+					}
+				} else {
+					err = w.MutateRow(c16Tbl, k, m)
+				}
 				evt++
 				if err != nil {
 					r.Fail("writer-failed", "", "writer %d on %q: %v", j, k, err)
